@@ -581,7 +581,17 @@ func (c *Ctx) c04Oracle() error {
 			fmt.Fprintf(&sk, "func decl() %s { var x %s = %d; return x }\nvar g %s = %d\nfunc gdecl() %s { return g }\nconst cc %s = %d\nfunc cdecl() %s { return cc }\n", T, T, K, T, K, T, T, K, T)
 			fmt.Fprintf(&sk, "func par(a %s) %s { return a }\nfunc callk() %s { return par(%d) }\n", T, T, T, K)
 			fmt.Fprintf(&sk, "type S struct { F %s }\nfunc fk() %s { s := &S{F: %d}; return s.F }\nfunc ek() %s { s := []%s{%d}; return s[0] }\n", T, T, K, T, T, K)
+			// results: a returned constant takes the declared RESULT type, whatever the parameters' types are
+			others := []string{"float64", "uint8", "int8", "uint32", "int", "string", "bool"}
+			for pi, P := range others {
+				fmt.Fprintf(&sk, "func res%d(p %s) %s { return %d }\nfunc rcall%d() %s { var z %s; r := res%d(z); return r }\n", pi, P, T, K, pi, T, P, pi)
+				fmt.Fprintf(&sk, "func resb%d(p %s, q %s) (%s, %s) { return %d, %d }\nfunc rbcall%d() %s { var z %s; a, b := resb%d(z, z); _ = a; return b }\n", pi, P, P, T, T, K, K, pi, T, P, pi)
+			}
 			s := newScript(sk.String())
+			for pi, P := range others {
+				check("result-store", fmt.Sprintf("func(p %s) %s { return %d }", P, T, K), s.call(fmt.Sprintf("rcall%d", pi)), fmt.Sprintf("%d:%s", K, T))
+				check("result-store", fmt.Sprintf("func(p, q %s) (%s, %s) { return %d, %d }: second", P, T, T, K, K), s.call(fmt.Sprintf("rbcall%d", pi)), fmt.Sprintf("%d:%s", K, T))
+			}
 			for _, a := range boundary(k, r, 2) {
 				for i, op := range arith {
 					kk := K
@@ -690,7 +700,7 @@ func ti(a float64) int { return int(a) }
 }
 
 func runC04(c *Ctx) error {
-	c.Rep.Rule = "num cut: (op, tagged operand pair) lines, 8-bit types exhaustive (256x256 per op), every ordered pair of kinds {untyped,uint8,int8,uint32,int32} on boundary+random values, float64 on special+random bit patterns, assign/convert/incdec/negate forms; oracle: script functions per type x syntactic position (var op var, x := a op b, a op= b, var op K, K op var, a op= K, ++/--, unary, typed var/const declaration, parameter/field/element stores, conversions) against native Go arithmetic; distinct = distinct protocol line / (position,type,operands)"
+	c.Rep.Rule = "num cut: (op, tagged operand pair) lines, 8-bit types exhaustive (256x256 per op), every ordered pair of kinds {untyped,uint8,int8,uint32,int32} on boundary+random values, float64 on special+random bit patterns, assign/convert/incdec/negate forms; oracle: script functions per type x syntactic position (var op var, x := a op b, a op= b, var op K, K op var, a op= K, ++/--, unary, typed var/const declaration, parameter/field/element/result stores with parameters of every other type, conversions) against native Go arithmetic; distinct = distinct protocol line / (position,type,operands)"
 	if err := c.c04Corr(); err != nil {
 		return err
 	}
